@@ -33,7 +33,7 @@ Rls(o) == o \in {"Release", "AcqRel", "SeqCst"}
 
 Init == /\ l = 1 /\ clk = [t \in Threads |-> ZeroVC] /\ rel = [x \in {} |-> ZeroVC]
         /\ mem = [x \in {} |-> 0] /\ excl = [x \in {} |-> 0] /\ pid = -1 /\ run = -1
-        /\ tainted = FALSE /\ nviol = 0 /\ cnt = [x \in {} |-> 0]
+        /\ tainted = {} /\ nviol = 0 /\ cnt = [x \in {} |-> 0]
 
 RelOf(loc) == IF loc \in DOMAIN rel THEN rel[loc] ELSE ZeroVC
 Tick(c, t) == [c EXCEPT ![t][t] = @ + 1]
@@ -70,10 +70,10 @@ Step(e) ==
          ELSE LET b == mem[e.id]
                   ordered == \A a \in b.acs : HB(a, t, c)
               IN [clk |-> Tick(clk, t), rel |-> rel, mem |-> [mem EXCEPT ![e.id].live = FALSE], excl |-> excl,
-                  V |-> (IF ~b.live THEN {<<"C05", "freed_once">>} ELSE {})
+                  V |-> (IF ~b.live THEN {<<"C05", "freed_once">>, <<"C03", "freed_once">>} ELSE {})
                         \cup (IF b.live /\ ~ordered THEN {<<"C06", "no_race">>} ELSE {})]
     [] e.k = "bad_free" ->
-         [clk |-> Tick(clk, t), rel |-> rel, mem |-> mem, excl |-> excl, V |-> {<<"C05", "freed_once">>}]
+         [clk |-> Tick(clk, t), rel |-> rel, mem |-> mem, excl |-> excl, V |-> {<<"C05", "freed_once">>, <<"C03", "freed_once">>}]
     [] e.k = "atomic" /\ e.op # "get_mut" ->
          LET isload == e.op = "load" \/ (e.op = "cas" /\ ~e.ok)
              o == IF e.op = "cas" /\ ~e.ok THEN e.ordf ELSE e.ord
@@ -86,7 +86,7 @@ Step(e) ==
          IN [clk |-> Tick([clk EXCEPT ![t] = c1], t), rel |-> rel2,
              mem |-> IF inblk THEN [mem EXCEPT ![e.blk] = AddAcc(@, Acc(t, c[t], 0, 0, FALSE))] ELSE mem,
              excl |-> excl,
-             V |-> (IF inblk /\ ~b.live THEN {<<"C05", "no_uaf">>, <<"C06", "no_uaf">>} ELSE {})
+             V |-> (IF inblk /\ ~b.live THEN {<<"C05", "no_uaf">>, <<"C06", "no_uaf">>, <<"C03", "no_uaf">>} ELSE {})
                    \* touching a control block whose initialisation does not happen-before
                    \cup (IF inblk /\ b.live /\ ~(\A a \in b.acs : (a.wr /\ a.hi > a.lo) => HB(a, t, c1)) THEN {<<"C06", "no_race">>} ELSE {})]
     [] e.k = "read" ->
@@ -95,7 +95,10 @@ Step(e) ==
          IN [clk |-> Tick(clk, t), rel |-> rel,
              mem |-> IF known THEN [mem EXCEPT ![e.id] = AddAcc(@, Acc(t, c[t], e.loc, e.size, FALSE))] ELSE mem, excl |-> excl,
              V |-> (IF ~e.dok \/ ~e.aok THEN {<<"C05", "reads_original">>} ELSE {})
-                   \cup (IF known /\ ~b.live THEN {<<"C05", "no_uaf">>, <<"C06", "no_uaf">>} ELSE {})
+                   \* the bytes a conversion copied out are not the handle's bytes: the copy used the
+                   \* storage after it was released to the allocator or to a new exclusive owner
+                   \cup (IF ~e.dok /\ e.note = "converted" THEN {<<"C06", "copy_after_release">>, <<"C03", "copy_after_release">>} ELSE {})
+                   \cup (IF known /\ ~b.live THEN {<<"C05", "no_uaf">>, <<"C06", "no_uaf">>, <<"C03", "no_uaf">>} ELSE {})
                    \* a buffer read racing with a write of the new exclusive owner: besides being a data
                    \* race (C06) it is an execution in which C11 lets the reader see other bytes (C05)
                    \cup (IF known /\ b.live /\ ~(\A a \in b.acs : (a.wr /\ Overlap(a, e.loc, e.size)) => HB(a, t, c))
@@ -106,7 +109,7 @@ Step(e) ==
              ordered == \A a \in b.acs : Overlap(a, e.loc, e.size) => HB(a, t, c)
          IN [clk |-> Tick(clk, t), rel |-> rel,
              mem |-> IF known THEN [mem EXCEPT ![e.id] = AddAcc(@, Acc(t, c[t], e.loc, e.size, TRUE))] ELSE mem, excl |-> excl,
-             V |-> (IF known /\ ~b.live THEN {<<"C05", "no_uaf">>, <<"C06", "no_uaf">>} ELSE {})
+             V |-> (IF known /\ ~b.live THEN {<<"C05", "no_uaf">>, <<"C06", "no_uaf">>, <<"C03", "no_uaf">>} ELSE {})
                    \cup (IF known /\ b.live /\ ~ordered THEN {<<"C06", "no_race">>, <<"C05", "reads_original_weak">>} ELSE {})]
     [] e.k = "excl" ->
          LET n == (IF e.id \in DOMAIN excl THEN excl[e.id] ELSE 0) + 1 IN
@@ -114,7 +117,7 @@ Step(e) ==
           V |-> IF n > 1 THEN {<<"C05", "one_exclusive">>} ELSE {}]
     [] e.k = "end" ->
          [clk |-> clk, rel |-> rel, mem |-> mem, excl |-> excl,
-          V |-> IF e.size > 0 THEN {<<"C05", "freed_once">>} ELSE {}]
+          V |-> IF e.size > 0 THEN {<<"C05", "freed_once">>, <<"C03", "freed_once">>} ELSE {}]
     [] e.k \in {"redzone", "poison"} ->
          [clk |-> clk, rel |-> rel, mem |-> mem, excl |-> excl, V |-> {<<"C05", "no_uaf">>}]
     [] OTHER -> [clk |-> clk, rel |-> rel, mem |-> mem, excl |-> excl, V |-> {}]
@@ -123,14 +126,15 @@ Next ==
   /\ l <= Len(Rec)
   /\ LET e == Rec[l]
          R == Step(e)
-         report == ~tainted /\ R.V # {}
+         newV == {v \in R.V : v[1] \notin tainted}     \* first violation per property and program
+         report == newV # {}
      IN /\ clk' = R.clk /\ rel' = R.rel /\ mem' = R.mem /\ excl' = R.excl
         /\ pid' = IF e.k = "reset" THEN e.id ELSE pid
         /\ run' = IF e.k = "reset" THEN e.size ELSE run
-        /\ tainted' = IF e.k = "reset" THEN FALSE ELSE (tainted \/ R.V # {})
+        /\ tainted' = IF e.k = "reset" THEN {} ELSE (tainted \cup {v[1] : v \in R.V})
         /\ nviol' = nviol + (IF report THEN 1 ELSE 0)
         /\ cnt' = Bump(cnt, {e.k} \cup (IF e.k = "atomic" THEN {e.op} ELSE {}))
-        /\ (report => PrintT(<<"LAWVIOL", pid, run, e.k, R.V>>))
+        /\ (report => PrintT(<<"LAWVIOL", pid, run, e.k, newV>>))
         /\ (l = Len(Rec) => PrintT(<<"DONE", Len(Rec), nviol', cnt'>>))
   /\ l' = l + 1
 =============================================================================
